@@ -7,9 +7,10 @@ COQ = os.path.join(VERIF, 'coq')
 FL = []
 for d in ('gen', 'model', 'spec', 'proofs', 'props'): FL += ['-Q', os.path.join(COQ, d), 'LLTD']
 TABLE = {
- 'C01': ('BlockFun BlockSafe ClassifyProofs', 'C01: reception is memory-safe in the model for every oracle, every buffer of the daemon\'s size, every history (Fault = any read/write outside a buffer, bad release)',
+ 'C01': ('BlockFun BlockSafe FaultProofs SysSafe', 'C01: reception is memory-safe in the model for every oracle, every buffer of the daemon\'s size, every history (Fault = any read/write outside a buffer, bad release)',
          [('C01_frame_step_never_faults', 'safe_step'), ('C01_frame_never_faults', 'safe_frame'), ('C01_history_never_faults', 'safe_history'),
-          ('C01_classifier_stays_inside', 'classify_safe'), ('C01_esp32_reads_inside_length', 'esp32_safe')]),
+          ('C01_classifier_stays_inside', 'classify_total'), ('C01_esp32_reads_inside_length', 'esp32_total'), ('C01_tick_total', 'tick_total'),
+          ('C01_every_entry_point_every_history', 'rx_history_safe'), ('C01_hypotheses_satisfiable', 'rx_history_applies')]),
  'C02': ('BlockFun BlockNominal SpecTx TxProofs', 'C02: every transmitted frame passes the independent validator wf_tx; solicited only; junk independent; link to the buffer-level model',
          [('C02_every_frame_well_formed', 'C02_wf_step'), ('C02_only_solicited_and_bounded', 'C02_solicited'), ('C02_hello_property_list_well_formed', 'wf_hello'),
           ('C02_no_uninitialised_byte', 'junk_independent'), ('C02_buffer_level_model_refines', 'step_nominal')]),
